@@ -37,10 +37,11 @@ def is_optional_rt(t):
 CLI_FLAGS = {"REPLICATE": [], "OMIT": ["--omit-existing-annotations"], "IGNORE": ["--ignore-existing-annotations"]}
 
 
-def judge_module(res, tmod, m, traces, k, strategy, sname, via_cli=None):
+def judge_module(res, tmod, m, traces, k, strategy, sname, via_cli=None, rewriter="NoOpRewriter"):
     from monkeytype.stubs import build_module_stubs_from_traces
-    from monkeytype.typing import NoOpRewriter
     import monkeytype.typing as mt
+
+    rw = mt.DEFAULT_REWRITER if rewriter == "DEFAULT" else getattr(mt, rewriter)()
 
     keys = {}
 
@@ -51,7 +52,7 @@ def judge_module(res, tmod, m, traces, k, strategy, sname, via_cli=None):
         from vf.props.c01 import cli
 
         os.environ["MT_DB_PATH"] = via_cli
-        rc, text, err = cli(["-c", f"vf.mon.cfg:K{k}_NoOpRewriter", "stub", m.name] + CLI_FLAGS[sname])
+        rc, text, err = cli(["-c", f"vf.mon.cfg:K{k}_{rewriter}", "stub", m.name] + CLI_FLAGS[sname])
         res.count("cli_stub_runs")
         if rc != 0:
             bad("stub-command-fails", f"rc={rc} {err[-300:]}")
@@ -60,7 +61,7 @@ def judge_module(res, tmod, m, traces, k, strategy, sname, via_cli=None):
         text = text.rstrip("\n")
     else:
         try:
-            stubs = build_module_stubs_from_traces(traces, k, existing_annotation_strategy=strategy, rewriter=NoOpRewriter())
+            stubs = build_module_stubs_from_traces(traces, k, existing_annotation_strategy=strategy, rewriter=rw)
             text = stubs[m.name].render()
         except Exception as e:
             bad(f"stub-build-raises:{type(e).__name__}", repr(e)[:300])
@@ -141,7 +142,7 @@ def judge_module(res, tmod, m, traces, k, strategy, sname, via_cli=None):
                     bad("source-annotation-changed", f"{where}: source denotes {RT.show(exp)}, stub says {ast.unparse(node)}")
             elif want_traced:
                 try:
-                    T = RT.to_rt(mt.shrink_types(arg_types[name], k))
+                    T = RT.to_rt(rw.rewrite(mt.shrink_types(arg_types[name], k)))
                 except Exception as e:
                     res.count("unverifiable_shrink_failed")
                     continue
@@ -180,8 +181,8 @@ def judge_module(res, tmod, m, traces, k, strategy, sname, via_cli=None):
                 bad("source-return-annotation-changed", f"{where}: source {RT.show(exp)}, stub {ast.unparse(node)}")
             continue
         try:
-            R = RT.to_rt(mt.shrink_types(rets, k)) if rets else None
-            Y = RT.to_rt(mt.shrink_types(ylds, k)) if ylds else None
+            R = RT.to_rt(rw.rewrite(mt.shrink_types(rets, k))) if rets else None
+            Y = RT.to_rt(rw.rewrite(mt.shrink_types(ylds, k))) if ylds else None
         except Exception:
             res.count("unverifiable_shrink_failed")
             continue
@@ -203,16 +204,29 @@ def work(p):
 
     res = core.Res()
     d = core.scratch("c13")
+    todo = []
     for spec in p["modules"]:
+        todo.append(spec)
+        if spec.get("history"):
+            # the module is edited (other signatures and annotations behind the same names), reloaded and stubbed again in this process
+            todo.append(dict(spec, seed=spec["seed"] + ":edited", second=True))
+    prev_quals = set()
+    for spec in todo:
         rng = random.Random(spec["seed"])
         m = gm.Mod(rng, spec["name"], {"nested_classes": False, "annotate": 0.5}).build(spec.get("nfuncs", 10))
         res.count("evaluations")
+        if spec.get("second"):
+            res.count("edited_and_reloaded_modules")
+            res.count("names_kept_across_the_edit", len(prev_quals & {f.qual for f in m.funcs}))
+        prev_quals = {f.qual for f in m.funcs}
         try:
             tmod, path = modrun.load(d, m)
         except Exception as e:
             res.violation("harness:module-does-not-import", repr(e), {"source": m.source})
             continue
         k = spec["k"]
+        if spec.get("rewriter") == "DEFAULT":
+            res.count("default_rewriter_modules")
         allq = [f.qual for f in m.funcs]
         subset = set(rng.sample(allq, rng.randint(max(1, len(allq) // 2), len(allq))))
         if spec.get("real", True):
@@ -243,7 +257,7 @@ def work(p):
             st.add(traces)
             st.conn.close()
         for sname, strat in (("REPLICATE", S.REPLICATE), ("OMIT", S.OMIT), ("IGNORE", S.IGNORE)):
-            keys, text = judge_module(res, tmod, m, traces, k, strat, sname, via_cli=db)
+            keys, text = judge_module(res, tmod, m, traces, k, strat, sname, via_cli=db, rewriter=spec.get("rewriter", "NoOpRewriter"))
             for key, texts in keys.items():
                 res.violation(key, f"{m.name}: {texts[0][:300]}" + (f" (+{len(texts) - 1} more)" if len(texts) > 1 else ""),
                               {"spec": spec, "strategy": sname, "details": texts[:5], "stub": text[:2000]})
@@ -284,7 +298,7 @@ def run(ck):
         ck.merge(r)
     n = 1200 if quick else 20000
     specs = [{"name": f"vfm13_{ck.seed}_{i}", "seed": f"C13:{ck.seed}:{i}", "nfuncs": ck.rng("n", i).choice([6, 10, 14]), "k": [0, 0, 3][i % 3],
-              "real": i % 5 != 0, "cli": i % 4 == 1} for i in range(n)]
+              "real": i % 5 != 0, "cli": i % 4 == 1, "rewriter": "DEFAULT" if i % 3 == 1 else "NoOpRewriter", "history": i % 6 == 2} for i in range(n)]
     kk = core.NPROC * (2 if quick else 8)
     for r in core.pmap("vf.props.c13:work", [{"modules": specs[i::kk]} for i in range(kk)], timeout=3400):
         ck.merge(r)
@@ -293,6 +307,9 @@ def run(ck):
     ck.need("cells", 30, "cells of strategy x annotated? x traced? x parameter kind unseen")
     ck.need("return_kinds", 4)
     ck.need("optional_wraps_expected", 30)
+    ck.need("edited_and_reloaded_modules", 100)
+    ck.need("names_kept_across_the_edit", 200)
+    ck.need("default_rewriter_modules", 200)
     ck.need("compared_by_name", 30)
     return ck.finish(
         rule="generated signatures with source annotations on random subsets of positions (class, generic, Optional, string, NewType; None "
